@@ -247,7 +247,9 @@ func (c *RetryClient) Disconnect(ctx context.Context) error {
 		}
 	}), "retryclient: disconnecting")
 	c.mu.Lock()
-	close(c.chTask)
+	if c.chTask != nil {
+		close(c.chTask)
+	}
 	c.stopped = true
 	c.mu.Unlock()
 	return err
